@@ -12,6 +12,7 @@ import (
 	"verif/internal/core"
 	"verif/internal/drv"
 	"verif/internal/enum"
+	"verif/internal/luaref"
 	"verif/internal/textref"
 )
 
@@ -311,6 +312,10 @@ func buildC02Hist(t0 []string, depth int) *c02Hist {
 
 var c02Srv *drv.Server
 
+// the saved file declares a global that no buffer of the alphabet declares: if the outline of the open document
+// lists it, the server analyses the disk file instead of the client's text
+const c02DiskText = "gondisk = 1\n"
+
 func c02Send(s *drv.Server, e c02Event) error {
 	switch e.Kind {
 	case "open":
@@ -329,6 +334,11 @@ func c02Send(s *drv.Server, e c02Event) error {
 		return s.ChangeInc("a.lua", eds)
 	}
 	return nil
+}
+
+func c02ValidLua(t string) bool {
+	pr := luaref.Parse(t)
+	return pr.Err == nil && len(pr.DontCare) == 0
 }
 
 func c02Cached(s *drv.Server) (string, bool) {
@@ -355,7 +365,7 @@ func c02HandlerSpace(name string, h *c02Hist, level int) *core.Space {
 		Name: name, N: cum[len(states)], Chunk: 400, Describe: desc, RecycleEvery: 50,
 		Setup: func() {
 			if c02Srv == nil {
-				root := drv.NewWorkspace(map[string]string{"a.lua": ""})
+				root := drv.NewWorkspace(map[string]string{"a.lua": c02DiskText})
 				s, err := drv.Start(root, drv.Options{})
 				if err != nil {
 					panic(err)
@@ -407,6 +417,21 @@ func c02HandlerSpace(name string, h *c02Hist, level int) *core.Space {
 					return
 				}
 				cur = next
+				// what is analysed: after an edit (or an open) whose buffer is valid Lua the outline must come from the
+				// buffer, never from the saved file. A buffer that does not parse legitimately keeps the last good analysis;
+				// didSave re-reads the file, which a real client has just written, so neither is judged.
+				if open && step == len(hist)-1 && ev.Kind != "save" && c02ValidLua(next.text) {
+					r.Count("outline_judged_"+ev.Kind, 1)
+					if syms, err := srv.DocSymbols("a.lua"); err == nil {
+						r.Transitions++
+						for _, sy := range syms {
+							if strings.Contains(sy.Name, "gondisk") && !strings.Contains(next.text, "gondisk") {
+								fail("server-analyses-the-saved-file-instead-of-the-buffer:after-"+ev.Kind, map[string]interface{}{"step": step, "buffer": next.text, "outline_entry": sy.Name})
+								return
+							}
+						}
+					}
+				}
 			}
 			r.States++
 			if e.Kind == "inc" || e.Kind == "full" {
@@ -509,6 +534,11 @@ func init() {
 			for k := 0; k <= hd; k++ {
 				sp = append(sp, c02HandlerSpace(fmt.Sprintf("handlers-level%d", k), h, k))
 			}
+			ad := 3
+			if tier == "thorough" {
+				ad = 5
+			}
+			sp = append(sp, c02AnalysedSpace(ad))
 			return sp
 		},
 	})
